@@ -464,5 +464,8 @@ class Client:
     def violate(self, prop: str, clause: str, detail: str, **kw) -> None:
         v = {'property': prop, 'clause': clause, 'detail': detail,
              'session': self.sid, 'seq': self.world.seq}
+        cur = self.current
+        if cur is not None and cur.kind == 'idle' and cur.idling:
+            v['during_idle'] = True
         v.update(kw)
         self.violations.append(v)
